@@ -213,6 +213,14 @@ theorem rand64_deal_spec_abstract {F : Type} [VOps F] {B : Int} (ff : FloatFacts
   obtain ⟨h1, h2, h3⟩ := deal64Core_abs ff next fuel m n hm hmn hnB s out v s' h
   exact ⟨h1, h2, fun a ha => ⟨(h3 a ha).1, by have := (h3 a ha).2; omega⟩⟩
 
+/-- `vitter_a` (method A) terminates for EVERY generator state — no probability involved: each skip loop runs at most `n - m`
+    times, because the integer-valued double `top` reaches exactly 0 and then `quot ≤ 0 < U`; fuel `n - m + 1` always suffices.
+    (Method D's two rejection loops are genuinely probabilistic: they keep their fuel, see `rand64_deal_first_accepted`.) -/
+theorem vitter_a_terminates {F : Type} [VOps F] {B : Int} (ff : FloatFacts F B) {σ : Type} (next : σ → UInt64 × σ)
+    (fuel : Nat) (m n j : Int) (acc : List Int) (s : σ) (hm : 1 ≤ m) (hmn : m ≤ n) (hnB : n ≤ B) (hfuel : n - m < fuel) :
+    (vitterA (F := F) next fuel m n j acc s).isSome :=
+  vaLoop_terminates ff next fuel m.toNat m j n _ _ acc s hm hmn hnB rfl rfl (by omega) hfuel
+
 /-- instantiated at the EXECUTABLE model the driver runs against the C code (`Float` = binary64, libm `exp`/`log`): whatever
     `esl_rand64_Deal`'s model returns for `1 ≤ m ≤ n ≤ 2^53` on the MT19937-64 generator in any state is `m` strictly increasing
     values in `[0,n)` — the only thing not proved in Lean is `FloatFacts Float (2^53)` itself (`Float` is opaque to the kernel);
